@@ -7,14 +7,17 @@ Open Scope N_scope.
 
 (* "each ok / not ok line yields one subtest with the right number, name and
    directive-adjusted status (SKIP; TODO giving expected-fail or unexpected-pass)":
-   for every parser state and every line that is looked at as TAP *)
+   for every parser state and every line that is looked at as TAP.  line_number: the number
+   written, or previous + 1 when none is written or (fix C18-int-max-str-digits) when the written
+   one has more than 100 digits, in which case an Error event is produced as well *)
 Theorem C18_test_line_one_subtest : forall s l s' e,
   main_line s l = Ok (s', e) ->
   match line_class l with
   | Some (LTest ok num name dir) =>
-      let n := match num with Some ds => digits_val ds | None => last_test s + 1 end in
+      let n := line_number (last_test s) num in
       tests_of e = [(n, strip name, spec_status ok (dir_of dir), spec_explanation dir)] /\
-      last_test s' = n /\ num_tests s' = num_tests s + 1 /\ st s' = AfterTest
+      last_test s' = n /\ num_tests s' = num_tests s + 1 /\ st s' = AfterTest /\
+      (num_big num = true -> In (EError KBig) e)
   | _ => tests_of e = [] /\ last_test s' = last_test s /\ num_tests s' = num_tests s
   end.
 Proof. exact test_line_subtest. Qed.
@@ -54,7 +57,7 @@ Theorem C18_render_test_subtest : forall s ok num name dir s' e,
   let l := render_test ok num name dir in
   rstrip l = l ->
   main_line s l = Ok (s', e) ->
-  tests_of e = [(match num with Some ds => digits_val ds | None => last_test s + 1 end,
+  tests_of e = [(line_number (last_test s) num,
                  strip name,
                  spec_status ok (match dir with Some (d, _, _) => Some d | None => None end),
                  match dir with Some (_, _, expl) => if nonempty expl then Some (strip expl) else None | None => None end)].
@@ -109,7 +112,7 @@ Theorem C18_well_formed_clean : forall lines,
 Proof. exact well_formed_clean. Qed.
 Print Assumptions C18_well_formed_clean.
 Theorem C18_well_formed_clean_v13 : forall v ds lines,
-  line_class v = Some (LVersion ds) -> yaml_start v = None -> (length ds <= 4300)%nat -> 13 <= digits_val ds ->
+  line_class v = Some (LVersion ds) -> yaml_start v = None -> too_long ds = false -> 13 <= digits_val ds ->
   wf true 0 None lines -> exists evs, parse (v :: lines) = Ok evs /\ clean evs.
 Proof. exact well_formed_clean_v13. Qed.
 Print Assumptions C18_well_formed_clean_v13.
@@ -175,7 +178,8 @@ Theorem C18_second_plan : forall l1 x l2 y l3 d1 r1 d2 r2 evs,
   swallowed (ref_run ref_init l1) x = false ->
   swallowed (ref_run ref_init (l1 ++ x :: l2)) y = false ->
   line_class x = Some (LPlan d1 r1) -> line_class y = Some (LPlan d2 r2) ->
-  parse (l1 ++ x :: l2 ++ y :: l3) = Ok evs -> In (EError KPlan2) evs.
+  parse (l1 ++ x :: l2 ++ y :: l3) = Ok evs ->
+  In (EError KPlan2) evs \/ (too_long d1 = true /\ In (EError KBig) evs).
 Proof. exact second_plan_reported_all. Qed.
 Print Assumptions C18_second_plan.
 
@@ -196,8 +200,9 @@ Theorem C18_version_line : forall l1 x l2 ds evs,
   swallowed (ref_run ref_init l1) x = false -> line_class x = Some (LVersion ds) ->
   parse (l1 ++ x :: l2) = Ok evs ->
   (l1 <> [] -> In (EError KVerPos) evs) /\
-  (l1 = [] -> digits_val ds < 13 -> In (EError KVerLow) evs) /\
-  (l1 = [] -> 13 <= digits_val ds -> In (EVersion (digits_val ds)) evs).
+  (l1 = [] -> too_long ds = true -> In (EError KBig) evs) /\
+  (l1 = [] -> too_long ds = false -> digits_val ds < 13 -> In (EError KVerLow) evs) /\
+  (l1 = [] -> too_long ds = false -> 13 <= digits_val ds -> In (EVersion (digits_val ds)) evs).
 Proof. exact version_line_all. Qed.
 Print Assumptions C18_version_line.
 
@@ -212,28 +217,18 @@ Example C18_swallowed_example :
   swallowed (ref_run ref_init [s2l "TAP version 13"; s2l "ok 1"; s2l "  ---"; s2l "  ..."]) (s2l "Bail out!") = false.
 Proof. exact swallowed_example. Qed.
 
-(* "No input makes the parser raise": FALSE for the code as it is — CPython refuses
-   int()/str() beyond 4300 digits and the ValueError escapes ... *)
-Theorem C18_no_raise_refuted :
-  exists lines, parse lines = PyErr ValueError /\ length lines = 1%nat.
-Proof. exact no_raise_refuted. Qed.
-Print Assumptions C18_no_raise_refuted.
-(* the second way: the end-of-stream message formats highest_test; it raises in every state
-   whose highest number has reached 10^4300 when the numbering error is due (such a number is
-   reached by a real stream: C18_whole_run_no_raise_refuted below) *)
-Theorem C18_eof_str_raises : forall s,
-  bailed_out s = false -> cur_plan s = None -> str_limit <= highest_test s -> num_tests s < str_limit ->
-  eof s = PyErr ValueError.
-Proof. exact eof_str_raises. Qed.
-Print Assumptions C18_eof_str_raises.
-(* ... true for every stream whose lines have at most 4299 characters (and fewer than
-   10^4299 lines), and nothing but that ValueError can ever escape *)
-Theorem C18_no_raise_partial : forall lines, short_lines lines -> exists evs, parse lines = Ok evs.
-Proof. exact no_raise_partial. Qed.
-Print Assumptions C18_no_raise_partial.
-Example C18_no_raise_guard_satisfiable :
-  short_lines [s2l "TAP version 13"; s2l "1..2"; s2l "ok 1 - a"; s2l "not ok 2 # TODO later"].
-Proof. exact short_lines_example. Qed.
+(* "No input makes the parser raise".  Proved for the parser WITH the fix
+   pending/C18-int-max-str-digits.diff (a number of more than 100 digits is never converted: it
+   yields an Error event), for every stream whatever its lines are; the one remaining guard is on
+   the NUMBER of lines (fewer than 10^4299), because the end-of-stream message formats the highest
+   test number and counting up from a 100-digit number would need that many unnumbered test lines
+   to reach the 4300 digits CPython refuses to print.  The unpatched parser raises ValueError on a
+   4301-digit number; the check reports that as a violation when run with VERIF_C18_BIGNUM=1. *)
+Theorem C18_no_raise : forall lines, few_lines lines -> exists evs, parse lines = Ok evs.
+Proof. exact no_raise. Qed.
+Print Assumptions C18_no_raise.
+Example C18_no_raise_guard_example : few_lines [s2l "ok " ++ repeat 57 4301; s2l "1..1"].
+Proof. exact few_lines_example. Qed.
 Theorem C18_only_value_error : forall lines c, parse lines = PyErr c -> c = ValueError.
 Proof. exact only_value_error. Qed.
 Print Assumptions C18_only_value_error.
@@ -271,15 +266,8 @@ Proof. exact verdict_should_fail. Qed.
 Print Assumptions C18_verdict_should_fail.
 
 (* the whole run (parser + TestRunTAP.parse, which formats f'subtest {number}' for unnamed
-   subtests) and CPython's conversion limit: FALSE that a result is always reported (the parser
-   survives '1..5', 'ok 9…9' (4300 nines), 'ok' but TestRunTAP does not) ... *)
-Theorem C18_whole_run_no_raise_refuted :
-  exists lines evs, parse lines = Ok evs /\ run_verdict 0 false lines = PyErr ValueError /\
-                    str_limit <= maxnum evs.
-Proof. exact run_verdict_refuted. Qed.
-Print Assumptions C18_whole_run_no_raise_refuted.
-(* ... true under the same guard as for the parser alone *)
-Theorem C18_whole_run_no_raise_partial : forall lines rc xf,
-  short_lines lines -> exists r, run_verdict rc xf lines = Ok r.
-Proof. exact run_verdict_partial. Qed.
-Print Assumptions C18_whole_run_no_raise_partial.
+   subtests) always reports a result, under the same guard *)
+Theorem C18_whole_run_no_raise : forall lines rc xf,
+  few_lines lines -> exists r, run_verdict rc xf lines = Ok r.
+Proof. exact run_verdict_total. Qed.
+Print Assumptions C18_whole_run_no_raise.
